@@ -300,7 +300,8 @@ pub fn isolated_main(reset_ev: &str, end_ev: &str, default_timeout_ms: u64, para
                 let mut m = Map::new();
                 if let Value::Object(o) = sc {
                     for (k, v) in o {
-                        if v.is_number() || v.is_boolean() || v.is_string() {
+                        let flat = v.as_array().is_some_and(|a| a.iter().all(|x| x.is_number() || x.is_boolean() || x.is_string()));
+                        if v.is_number() || v.is_boolean() || v.is_string() || flat {
                             m.insert(k.clone(), v.clone());
                         }
                     }
